@@ -45,10 +45,10 @@ start = s.index("## 13. Seeded changes and which checks catch them")
 end = s.index("## Appendix A")
 intro = '''## 13. Seeded changes and which checks catch them
 
-Eight rounds of independent sub-agents (one per claimed property and round)
+Nine rounds of independent sub-agents (one per claimed property and round)
 were given only the text of one property and a private scratch worktree, and
 asked for two changes each that break the property, keep the pinned suite green
-and need something specific to manifest; rounds two to eight were steered
+and need something specific to manifest; rounds two to nine were steered
 towards state left by earlier calls, failures at interior points, unspecified
 behaviour of dependencies and cooperating edits, and were told which ideas were
 already taken (variants A/B = round 1, C/D = round 2, E/F = round 3,
@@ -58,7 +58,9 @@ pointed at the process-wide environment, unusual-but-legal object structure and
 aliasing; M/N = round 7, pointed at sequences of different operations on the
 same objects, unusual argument types, interacting keywords and resources;
 O/P = round 8, pointed at numerical edge semantics, inner-axis shapes, text
-format interplay and ordering of validation and side effects). Every change was confirmed by
+format interplay and ordering of validation and side effects; Q/R = round 9,
+asked to find clauses and parts of the quantified domain no earlier idea had
+touched). Every change was confirmed by
 `tools/confirm_seeds.sh` in a scratch worktree (patch applies; no newly
 failing test; the agent's demo fails with the change and passes without) before
 it was filed under `/verif/seeded/<id>/` (`patch.diff`, `demo.py`, `notes.md`
@@ -180,6 +182,18 @@ catalogue; C15-P to a float point for a cancelled-to-constant polynomial.
 The evaluation-at-2 stage added to C20 after round seven exposed a genuine
 defect on the unchanged tree in the multi-seed soak (§10: `q0**33` at the
 Python int 2 evaluated to 0), which was repaired.
+Round nine (10 of 22 missed at first): C07-Q (a comparison that enters a
+`global_options` block of its own and so writes the whole option set back) to
+deterministic interleaving - the selection of the sort options, or another
+party's `set_options`, lands at executed line k of a running operation (C07,
+C14); C14-Q/R to unknown names that look like a helper's own parameters and to
+stack exhaustion a few frames around a block; C13-Q to files that lost their
+last rows (never a shorter array); C18-R to norm 2 on the largest grids; C16-Q
+to print / update in place / print again; C12-Q to hstack/vstack/dstack;
+C17-Q/R to `copyto` with a declared output and to bool data for the functions
+that only ask "is it zero"; C20-Q/R to arrays in the pickle stage, built from
+attributes or composed from scalar polynomials stored in opposite term order;
+C15-Q to joining monomials of one pattern over different names.
 
 '''
 s = s[:start] + intro + table + "\n\n---------------------------------------------------------------------------\n\n" + s[end:]
